@@ -94,6 +94,10 @@ def twin_oracle(ctx):
                     x.setflags(write=False)
                     r = compute.frame_by_frame_calculation(c, x, o[1])
                 outs.append((r.shape, str(r.dtype), r.tobytes(), bool(c.started)))
+                try:
+                    r[...] = 7.25  # the returned matrix belongs to the caller: scribbling on it must not matter later
+                except (ValueError, TypeError):
+                    pass
             except ValueError as e:
                 outs.append(("ValueError", bool(c.started)))
         return outs
